@@ -235,3 +235,82 @@ func (e *pathExplorer) offer(prefix []int, n int, r *core.Rand) {
 		e.queue[0], e.queue[i] = e.queue[i], e.queue[0]
 	}
 }
+
+// pathRun is the state of one explored path.
+type pathRun struct {
+	pair    *Pair
+	choices []int
+	chose   int
+	last    model.Outcome
+	end     model.OK
+	steps   int
+}
+
+// explorePaths drives a program along systematically enumerated choice paths,
+// comparing every step with the model. perStep (optional) adds property-specific
+// checks after each agreeing step and returns a diff; perPath is called at the end
+// of every path that did not diverge. It returns false after a violation.
+func explorePaths(c *core.Ctx, what string, prog *hast.Program, scripts []string, mk func() PairOpts, maxPaths int,
+	perStep func(pr *pathRun, want model.Outcome, got mon.Obs) string, perPath func(pr *pathRun)) bool {
+	ex := newExplorer(maxPaths)
+	for {
+		prefix, ok := ex.next()
+		if !ok {
+			return true
+		}
+		pair, err, pan := NewPair(prog, scripts, mk(), c.R.Fork())
+		if pan != "" || err != nil {
+			c.Violate("a generated, syntactically valid program failed to load", map[string]any{"readers": scripts, "error": fmt.Sprint(err), "panic": pan})
+			return false
+		}
+		pr := &pathRun{pair: pair, end: model.OBudget}
+		for step := 0; step < 400; step++ {
+			choice := 0
+			if pair.M.Waiting() {
+				n := pair.M.NumOptions()
+				if len(pr.choices) < len(prefix) {
+					choice = prefix[len(pr.choices)]
+					if choice >= n {
+						choice = n - 1
+					}
+				} else {
+					ex.offer(pr.choices, n, c.R)
+				}
+				pr.choices = append(pr.choices, choice)
+				pr.chose++
+				if pr.last.Kind == model.OOptions && choice < len(pr.last.Opts) && pr.last.Opts[choice].Disabled {
+					c.Feature("disabled-option-chosen")
+				}
+			} else {
+				c.Feature("garbage-arg-after-non-option")
+			}
+			want, got, diff := pair.Step(choice)
+			if want.Kind == model.OBudget {
+				c.Discard()
+				break
+			}
+			pr.steps++
+			c.Event(want.Kind.String(), 1)
+			if diff == "" && perStep != nil {
+				diff = perStep(pr, want, got)
+			}
+			if diff != "" {
+				c.Violate(what+": "+diff, pair.Detail(pr.choices, want, got, diff))
+				return false
+			}
+			pr.last = want
+			if want.Kind == model.OEnd || want.Kind == model.OErr {
+				pr.end = want.Kind
+				break
+			}
+		}
+		c.Feature("paths")
+		for k, v := range pair.M.Stats {
+			c.FeatureN(k, v)
+		}
+		c.MaxOf("continuation-depth", pair.M.MaxDepth)
+		if perPath != nil {
+			perPath(pr)
+		}
+	}
+}
